@@ -1,7 +1,7 @@
 (* Property C18: printed option layouts and quirk lists parse back to the same signature fields. *)
 From Coq Require Import String.
 From PV Require Import Model.Prelude Model.Bits Model.Text Model.SigParse Model.DbParse Model.Dump Model.Options
-  Proofs.TextP Proofs.DumpP Proofs.OptionsP Spec.C03.
+  Model.Sig Model.Matcher Proofs.TextP Proofs.DumpP Proofs.OptionsP Spec.C03 Proofs.SigTextP.
 
 (* every layout over kinds 0..255 with any EOL padding, unknown kinds included *)
 Theorem C18_layout : forall l pad,
@@ -20,6 +20,19 @@ Print Assumptions C18_quirks.
 Theorem C18_numbers : forall n, 0 <= n < 10 ^ 20 -> py_int (dec n) = Some n.
 Proof. exact py_int_dec. Qed.
 Print Assumptions C18_numbers.
+
+(* so a signature written from an observed packet's own fields is accepted by the database parser and matches
+   that packet exactly *)
+Theorem C18_written_matches : forall p md,
+  (p_ver p = 4 \/ p_ver p = 6) -> 1 <= p_ttl p <= 255 -> 0 <= p_olen p <= 255 -> 0 <= p_mss p <= 65535 ->
+  0 <= p_ws p <= 255 -> 0 <= p_win p <= 65535 -> 0 <= p_eol_pad p <= 255 ->
+  Forall (fun k => 0 <= k <= 255) (p_layout p) ->
+  (existsb (Z.eqb 0) (p_layout p) = false -> p_eol_pad p = 0) ->
+  (p_quirks p < 2 ^ 17)%N -> N.land (p_quirks p) (invalid_for (p_ver p)) = 0%N -> 0 <= md ->
+  parse_tcp_sig (print_tcp_sig (sig_of_pkt p)) = Ok (sig_of_pkt p) /\
+  tcp_match md (sig_of_pkt p) p = Some Exact.
+Proof. exact written_signature_matches. Qed.
+Print Assumptions C18_written_matches.
 
 Local Open Scope string_scope.
 Local Open Scope Z_scope.
